@@ -193,6 +193,22 @@ Theorem c06_timeout_exact : forall k c s,
 Proof. exact timeout_exact_lemma. Qed.
 
 
+(* Retransmission does not depend on what the peer sends: counted from the last
+   acknowledgement progress, the sender has retransmitted exactly
+   floor(stale / retx_threshold) times — once every retx_threshold of its own
+   timer passes with unacknowledged data — no matter which segments (data of
+   the opposite direction, duplicate ACKs, window updates, injected segments)
+   arrived in between; only an ACK that advances snd_una (or the completion of
+   the handshake) restarts the count.  In particular a lost segment is
+   retransmitted at the retx_threshold-th pass even if the peer keeps sending. *)
+Theorem c06_retransmit_every_threshold : forall k c s es,
+  1 <= retx_threshold k ->
+  timed_out (tcb_of c s) = false -> esa (tcb_of c s) = 0 -> retx (tcb_of c s) = 0 ->
+  (forall p q, es = p ++ q -> stale k s c p < retx_threshold k * (retx_max k + 1)) ->
+  let t := tcb_of (crun k c es) s in
+  retx t = stale k s c es / retx_threshold k /\ esa t = stale k s c es mod retx_threshold k.
+Proof. exact retransmit_every_threshold_lemma. Qed.
+
 (* Link to the kernel model that is checked against the implementation: an
    inbound non-RST segment for a connection changes that socket's TCB exactly
    by tcb_on_conn. *)
@@ -241,5 +257,6 @@ Print Assumptions c06_quiescent_complete.
 Print Assumptions c06_window_update_lost_refuted.
 Print Assumptions c06_no_spurious_abort_partial.
 Print Assumptions c06_timeout_exact.
+Print Assumptions c06_retransmit_every_threshold.
 Print Assumptions c06_kernel_uses_tcb_on_conn.
 Print Assumptions c06_nonvacuous.
